@@ -9,11 +9,13 @@ Environment processes are registers of their own domain: the producer only moves
 import fsmc  # noqa  (first: sys.path + tracer shim)
 import itertools
 from migen import *
+from migen.fhdl.structure import _Assign
 from migen.fhdl.specials import Memory, READ_FIRST
+from migen.fhdl.tools import list_signals, list_targets
 from migen.genlib.cdc import MultiReg, MultiRegImpl, PulseSynchronizer
 from fsmc.explore import Harness, Explorer, replay_stock, PROGRESS, OUTPROG, TICK_A, TICK_B
 from fsmc.design import MachineryError
-from checks.streamlib import Port, Identity, par_raw
+from checks.streamlib import Port, Identity, par_raw, flat_fields
 
 PROPERTY = "C05"
 LEVEL = "model_checking"
@@ -69,11 +71,100 @@ def force_emitted_memory_modes(frag):
     return n
 
 
+def _direct_deps(stmts, ctx, out):
+    """target -> signals read to compute it (right-hand side, index expressions, enclosing If/Case conditions)"""
+    for st in stmts:
+        if isinstance(st, _Assign):
+            tg = list_targets(st)
+            rd = ctx | list_signals(st.r) | (list_signals(st.l) - tg)
+            for t in tg:
+                out.setdefault(t, set()).update(rd)
+        elif isinstance(st, If):
+            c = ctx | list_signals(st.cond)
+            _direct_deps(st.t, c, out)
+            _direct_deps(st.f, c, out)
+        elif isinstance(st, Case):
+            c = ctx | list_signals(st.test)
+            for body in st.cases.values():
+                _direct_deps(body, c, out)
+        elif isinstance(st, (list, tuple)):
+            _direct_deps(st, ctx, out)
+        elif isinstance(st, (Display, Finish)):
+            pass
+        else:
+            raise MachineryError(f"crossing lint: unknown statement {type(st)}")
+
+
+def crossing_lint(D, tagged, base_of, input_domain, storage):
+    """Side-condition of the fault model, *checked* instead of assumed: sampling faults are injected at the first flop of every
+    MultiReg, which is only sound if (1) nothing but the next synchroniser stage reads a first flop and (2) no other register
+    samples state (or declared inputs) of the other clock.  Exempt: words of a dual-clock memory read by the other port (a data
+    path that the pointer protocol keeps stable; the 'emitted+collide' variant attacks it separately).
+    Returns [(rule, msg)]."""
+    f = D.f
+    comb = {}
+    _direct_deps(f.comb, set(), comb)
+    sync = {}
+    dom = {}
+    for cd, st in f.sync.items():
+        d = {}
+        _direct_deps(st, set(), d)
+        for t, rd in d.items():
+            sync.setdefault(t, set()).update(rd)
+            dom[t] = base_of(cd)
+    def leaves(sigs):
+        seen, todo, out = set(), list(sigs), set()
+        while todo:
+            x = todo.pop()
+            if x in seen:
+                continue
+            seen.add(x)
+            if x in comb and x not in sync:
+                todo += list(comb[x])
+            else:
+                out.add(x)
+        return out
+    def nm(x):
+        return x.backtrace[-1][0] if getattr(x, "backtrace", None) else repr(x)
+    out = []
+    first = {impl.regs[0]: impl for impl in tagged}
+    for impl in tagged:
+        r0 = impl.regs[0]
+        allowed = impl.regs[1] if len(impl.regs) > 1 else None
+        readers = [t for m in (comb, sync) for t, rd in m.items() if r0 in rd and t is not allowed and t is not r0]
+        if readers:
+            out.append(("struct.first_flop_exposed", f"first (possibly undecided) flop of the {len(impl.regs)}-stage synchroniser into domain "
+                        f"{impl.odomain} is read by {sorted(nm(t) for t in readers)}"))
+    for r, rd in sync.items():
+        if r in first:
+            continue
+        here = dom[r]
+        bad = []
+        for x in leaves(rd):
+            if x in storage:
+                continue
+            xd = dom.get(x, input_domain.get(x))
+            if xd is not None and xd != here:
+                bad.append(x)
+        if bad:
+            out.append(("struct.unsynchronised_crossing", f"register {nm(r)} of clock {here} samples {sorted(nm(x) for x in bad)} "
+                        f"of the other clock without a synchroniser"))
+    return sorted(set(out))
+
+
+def _driven(ep, master):
+    """signals of a stream endpoint that the environment drives as the master (valid + payload) or as the slave (ready)"""
+    if not master:
+        return [ep.ready]
+    return [ep.valid, ep.first, ep.last] + [x[2] for x in flat_fields(ep.payload)] + [x[2] for x in flat_fields(ep.param)]
+
+
 class CdcHarness(Harness):
     """Common part: tagged synchronisers, sampling faults, cover counters."""
     clocks = ("a", "b")
     conf_every = 211
     conf_first = 300
+    time_cap = 3000        # the binding caps are the deterministic state caps below; wall-clock is only a safety net
 
     def __init__(self, name, factory, mem="sim", fault=True):
         self.name, self.factory, self.mem, self.fault = name, factory, mem, fault
@@ -134,6 +225,16 @@ class CdcHarness(Harness):
             raise MachineryError("a synchroniser input mentions a signal outside the lowered fragment")
         if self.fault and not self.mr:
             raise MachineryError(f"{self.name}: no MultiReg was tagged")
+
+    def input_domains(self):
+        """{input Signal: base clock of the environment register that drives it}"""
+        return {}
+
+    def lint(self):
+        storage = set()
+        for arr in self.D.sim.evaluator.replaced_memories.values():
+            storage |= set(arr)
+        return crossing_lint(self.D, self.tagged, self.base_of, self.input_domains(), storage)
 
     # -- schedule -------------------------------------------------------------------------------------------
     def tickset(self, ch):
@@ -253,6 +354,11 @@ class CdcStreamHarness(CdcHarness):
             k += idb
         self.alphabet = [(i * rep) & ((1 << S.paybits) - 1) for i in range(self.M)]
 
+    def input_domains(self):
+        d = {x: "a" for x in _driven(self.sink.ep, True)}
+        d.update({x: "b" for x in _driven(self.source.ep, False)})
+        return d
+
     def token(self, nid):
         return (self.alphabet[nid], nid & 1, (nid >> 1) & 1, par_raw(nid & 1, self.sink.parbits))
 
@@ -364,6 +470,9 @@ class BusSyncHarness(CdcHarness):
     def bind(self, D):
         self.bind_cdc(D)
         self.I, self.O = D.i(self.dut.i), D.i(self.dut.o)
+
+    def input_domains(self):
+        return {self.dut.i: "a"}
 
     def env_init(self):
         return (0, 0, 0, 1)
@@ -526,3 +635,458 @@ class CdcStreamResetHarness(CdcStreamHarness):
         if not self.resets_nonempty:
             return "no reset pulse started while elements were in flight"
         return CdcStreamHarness.vacuity(self)
+
+
+# ---------------------------------------------------------------------------------------------------------------
+# AXILiteClockDomainCrossing: single-outstanding master in domain a, memory slave in domain b
+# ---------------------------------------------------------------------------------------------------------------
+BUSY = 2048
+
+
+class AxiLiteCdcWrapper(Module):
+    def __init__(self):
+        from litex.soc.interconnect.axi import AXILiteInterface, AXILiteClockDomainCrossing
+        self.m = AXILiteInterface(data_width=8, address_width=2)
+        self.s = AXILiteInterface(data_width=8, address_width=2)
+        self.submodules.cdc = AXILiteClockDomainCrossing(self.m, self.s, "a", "b")
+
+
+class AxiLiteCdcHarness(CdcHarness):
+    """env = (mph, k, mref, dl, slave) with
+       mph   master phase: 0 idle, (1, awp, wp) write address/data still to be accepted, 2 waiting for B, 3 AR offered, 4 waiting for R
+       k     parity of the number of writes issued (write data alternates between two marks)
+       mref  data of the last write (what a read must return)
+       dl    (aw, w, ar) parts of the current operation already delivered to the slave
+       slave (aw, wdat, bv, rv, smem): address / data received, B / R being offered, memory word
+    choice = (tick set, master action when idle at an a tick: 0 stay idle, 1 write, 2 read).  The slave is deterministic (accepts
+    whatever it can hold, answers one b tick later); all five channels carry all-ones garbage while not valid."""
+    ADDR, PROT, BRESP, RRESP = 0b10, 0b101, 0b10, 0b01
+    DATA = (0xA5, 0x3C)
+    live_queries = (
+        ("live.axi_hang", BUSY, PROGRESS, (TICK_A, TICK_B),
+         "an operation is outstanding, the slave cooperates, both clocks keep ticking, no channel handshake ever happens"),
+    )
+
+    def __init__(self, name, mem="sim", fault=True, cap=None):
+        CdcHarness.__init__(self, name, AxiLiteCdcWrapper, mem, fault)
+        if cap:
+            self.cap = cap
+        self.done = [0, 0]
+
+    def bind(self, D):
+        self.bind_cdc(D)
+        m, s = self.dut.m, self.dut.s
+        self.P = {(side, ch): Port(D, getattr(itf, ch)) for side, itf in (("m", m), ("s", s)) for ch in ("aw", "w", "b", "ar", "r")}
+
+    def input_domains(self):
+        d = {}
+        for itf, dom, master in ((self.dut.m, "a", True), (self.dut.s, "b", False)):
+            for ch in ("aw", "w", "ar"):
+                d.update({x: dom for x in _driven(getattr(itf, ch), master)})
+            for ch in ("b", "r"):
+                d.update({x: dom for x in _driven(getattr(itf, ch), not master)})
+        return d
+
+    def env_init(self):
+        return (0, 0, 0, (0, 0, 0), (0, None, 0, None, 0))
+
+    def choices(self, env):
+        idle = env[0] == 0
+        return [(t, act) for t, ts in CLOCKED for act in ((0, 1, 2) if idle and "a" in ts else (None,))]
+
+    @staticmethod
+    def _pack(P, **f):
+        raw = 0
+        for n, w, i, off in P.pay:
+            raw |= (f[n] & ((1 << w) - 1)) << off
+        return raw
+
+    def drive(self, v, env, ch):
+        mph, k, mref, dl, (saw, swd, sbv, srv, smem) = env
+        P = self.P
+        w = isinstance(mph, tuple)
+        # master side (domain a registers)
+        if w and mph[1]:
+            P["m", "aw"].drive_token(v, self._pack(P["m", "aw"], addr=self.ADDR, prot=self.PROT), 0, 0, 0)
+        else:
+            P["m", "aw"].drive_idle(v, 1)
+        if w and mph[2]:
+            P["m", "w"].drive_token(v, self._pack(P["m", "w"], data=self.DATA[k], strb=1), 0, 0, 0)
+        else:
+            P["m", "w"].drive_idle(v, 1)
+        if mph == 3:
+            P["m", "ar"].drive_token(v, self._pack(P["m", "ar"], addr=self.ADDR, prot=self.PROT), 0, 0, 0)
+        else:
+            P["m", "ar"].drive_idle(v, 1)
+        v[P["m", "b"].ready] = 1 if mph == 2 else 0
+        v[P["m", "r"].ready] = 1 if mph == 4 else 0
+        # slave side (domain b registers)
+        v[P["s", "aw"].ready] = 1 if (not saw and not sbv) else 0
+        v[P["s", "w"].ready] = 1 if (swd is None and not sbv) else 0
+        v[P["s", "ar"].ready] = 1 if srv is None else 0
+        if sbv:
+            P["s", "b"].drive_token(v, self._pack(P["s", "b"], resp=self.BRESP), 0, 0, 0)
+        else:
+            P["s", "b"].drive_idle(v, 1)
+        if srv is not None:
+            P["s", "r"].drive_token(v, self._pack(P["s", "r"], resp=self.RRESP, data=srv), 0, 0, 0)
+        else:
+            P["s", "r"].drive_idle(v, 1)
+
+    def _field(self, P, v, name):
+        for n, w, i, off in P.pay:
+            if n == name:
+                return v[i]
+        raise KeyError(name)
+
+    def observe(self, v, env, ch):
+        mph, k, mref, dl, (saw, swd, sbv, srv, smem) = env
+        t, act = ch
+        ts = TICKSETS[t]
+        P = self.P
+        prog = False
+        daw, dw, dar = dl
+        w = isinstance(mph, tuple)
+        # responses must only be visible while the master waits for them
+        if v[P["m", "b"].valid] and mph != 2:
+            return env, ("axi.invented_b", "B response presented to the master without an outstanding write"), 0
+        if v[P["m", "r"].valid] and mph != 4:
+            return env, ("axi.invented_r", "R response presented to the master without an outstanding read"), 0
+        # ---- slave side, b ticks
+        if "b" in ts:
+            if v[P["s", "aw"].valid] and v[P["s", "aw"].ready]:
+                if daw or not (w or mph == 2):
+                    return env, ("axi.dup_aw", "slave receives a write address that no outstanding write owes it"), 0
+                got = (self._field(P["s", "aw"], v, "addr"), self._field(P["s", "aw"], v, "prot"))
+                if got != (self.ADDR, self.PROT):
+                    return env, ("axi.data_aw", f"AW payload (addr, prot) = {got}, sent {(self.ADDR, self.PROT)}"), 0
+                saw, daw, prog = 1, 1, True
+            if v[P["s", "w"].valid] and v[P["s", "w"].ready]:
+                if dw or not (w or mph == 2):
+                    return env, ("axi.dup_w", "slave receives write data that no outstanding write owes it"), 0
+                got = (self._field(P["s", "w"], v, "data"), self._field(P["s", "w"], v, "strb"))
+                if got != (self.DATA[k], 1):
+                    return env, ("axi.data_w", f"W payload (data, strb) = {got}, sent {(self.DATA[k], 1)}"), 0
+                swd, dw, prog = got[0], 1, True
+            if v[P["s", "ar"].valid] and v[P["s", "ar"].ready]:
+                if dar or mph not in (3, 4):
+                    return env, ("axi.dup_ar", "slave receives a read address that no outstanding read owes it"), 0
+                got = (self._field(P["s", "ar"], v, "addr"), self._field(P["s", "ar"], v, "prot"))
+                if got != (self.ADDR, self.PROT):
+                    return env, ("axi.data_ar", f"AR payload (addr, prot) = {got}, sent {(self.ADDR, self.PROT)}"), 0
+                srv, dar, prog = smem, 1, True
+            else:
+                if srv is not None and v[P["s", "r"].ready]:
+                    srv, prog = None, True
+            if sbv:
+                if v[P["s", "b"].ready]:
+                    sbv, prog = 0, True
+            elif saw and swd is not None:
+                smem, saw, swd, sbv = swd, 0, None, 1
+        # ---- master side, a ticks
+        if "a" in ts:
+            if w:
+                awp, wp = mph[1], mph[2]
+                if awp and v[P["m", "aw"].ready]:
+                    awp, prog = 0, True
+                if wp and v[P["m", "w"].ready]:
+                    wp, prog = 0, True
+                mph = (1, awp, wp) if (awp or wp) else 2
+            elif mph == 2:
+                if v[P["m", "b"].valid]:
+                    got = self._field(P["m", "b"], v, "resp")
+                    if got != self.BRESP:
+                        return env, ("axi.data_b", f"B resp = {got}, sent {self.BRESP}"), 0
+                    if not (daw and dw):
+                        return env, ("axi.invented_b", "B response before the slave received both address and data"), 0
+                    mph, k, daw, dw, prog = 0, k ^ 1, 0, 0, True
+                    self.done[0] += 1
+            elif mph == 3:
+                if v[P["m", "ar"].ready]:
+                    mph, prog = 4, True
+            elif mph == 4:
+                if v[P["m", "r"].valid]:
+                    got = (self._field(P["m", "r"], v, "data"), self._field(P["m", "r"], v, "resp"))
+                    if not dar:
+                        return env, ("axi.invented_r", "R response before the slave received the address"), 0
+                    if got != (mref, self.RRESP):
+                        return env, ("axi.data_r", f"R (data, resp) = {got}, expected {(mref, self.RRESP)}"), 0
+                    mph, dar, prog = 0, 0, True
+                    self.done[1] += 1
+            elif act == 1:
+                mph, mref = (1, 1, 1), self.DATA[k]
+            elif act == 2:
+                mph = 3
+        flags = TICKFLAGS[t]
+        if env[0] != 0:
+            flags |= BUSY
+        if prog:
+            flags |= PROGRESS
+        return (mph, k, mref, (daw, dw, dar), (saw, swd, sbv, srv, smem)), None, flags
+
+    def cover_report(self):
+        d = self.cdc_cover()
+        d.update(writes_completed=self.done[0], reads_completed=self.done[1])
+        return d
+
+    def vacuity(self):
+        if not self.done[0] or not self.done[1]:
+            return f"completed (writes, reads) = {self.done}"
+        return None
+
+
+# ---------------------------------------------------------------------------------------------------------------
+# stream.Monitor(clock_domain != sys): reset / latch pulses carried by PulseSynchronizers
+# ---------------------------------------------------------------------------------------------------------------
+PEND0, PEND1, DELIV0, DELIV1 = 4096, 8192, 16384, 32768
+
+
+class MonitorPulseHarness(CdcHarness):
+    """env = (l0, l1): state of the `reset` and `latch` lines (0 idle, 1 pulse driven during this a period, 2 sent and not yet seen in
+    domain b).  A line is pulsed again only after the previous pulse has been delivered (PulseSynchronizer's documented premise:
+    two toggles inside one destination period cancel).  Every pulse must appear exactly once, one b period long, at the output of
+    its synchroniser, and must eventually appear."""
+    conf_every = 3
+    live_queries = (
+        ("live.pulse_lost.reset", PEND0, DELIV0, (TICK_A, TICK_B), "a reset pulse was sent, both clocks keep ticking, it never arrives"),
+        ("live.pulse_lost.latch", PEND1, DELIV1, (TICK_A, TICK_B), "a latch pulse was sent, both clocks keep ticking, it never arrives"),
+    )
+
+    def __init__(self, name, fault=True):
+        def mk():
+            from litex.soc.interconnect import stream
+            self.ep = stream.Endpoint([("data", 1)])
+            mon = stream.Monitor(self.ep, count_width=2, clock_domain="b", with_tokens=True)
+            self.ps = [x for n, x in mon._submodules if isinstance(x, PulseSynchronizer)]
+            if len(self.ps) != 2:
+                raise MachineryError("stream.Monitor: expected two PulseSynchronizers (reset, latch)")
+            self.lines = (mon.reset, mon.latch)
+            return ClockDomainsRenamer({"sys": "a"})(mon)
+        CdcHarness.__init__(self, name, mk, "sim", fault)
+        self.delivered = [0, 0]
+
+    def bind(self, D):
+        self.bind_cdc(D)
+        self.L = [D.i(s) for s in self.lines]
+        self.Oo = [D.i(p.o) for p in self.ps]
+
+    def input_domains(self):
+        d = {x: "a" for x in self.lines}
+        d.update({self.ep.valid: "b", self.ep.ready: "b"})
+        return d
+
+    def env_init(self):
+        return (0, 0)
+
+    def choices(self, env):
+        out = []
+        for t, ts in CLOCKED:
+            if "a" in ts:
+                for s0 in ((0, 1) if env[0] == 0 else (0,)):
+                    for s1 in ((0, 1) if env[1] == 0 else (0,)):
+                        out.append((t, (s0, s1)))
+            else:
+                out.append((t, None))
+        return out
+
+    def drive(self, v, env, ch):
+        for j in (0, 1):
+            v[self.L[j]] = 1 if env[j] == 1 else 0
+
+    def observe(self, v, env, ch):
+        t, st = ch
+        ts = TICKSETS[t]
+        flags = TICKFLAGS[t]
+        new = list(env)
+        for j in (0, 1):
+            if env[j] == 2:
+                flags |= (PEND0, PEND1)[j]
+            if "b" in ts and v[self.Oo[j]]:
+                if env[j] != 2:
+                    return env, ("pulse.invented", f"{('reset', 'latch')[j]} pulse seen in domain b although none is in flight "
+                                                   f"(duplicated, stretched or spurious pulse)"), 0
+                new[j] = 0
+                flags |= (DELIV0, DELIV1)[j]
+                self.delivered[j] += 1
+            if "a" in ts:
+                if env[j] == 1:
+                    new[j] = 2
+                elif env[j] == 0 and st[j]:
+                    new[j] = 1
+        return tuple(new), None, flags
+
+    def cover_report(self):
+        d = self.cdc_cover()
+        d.update(pulses_delivered=dict(reset=self.delivered[0], latch=self.delivered[1]))
+        return d
+
+    def vacuity(self):
+        if not all(self.delivered):
+            return f"pulses delivered {self.delivered}"
+        if self.fault and not self.n_cross:
+            return "no crossing signal ever changed in a sampling instant"
+        return None
+
+
+# ---------------------------------------------------------------------------------------------------------------
+# Configuration menu
+# ---------------------------------------------------------------------------------------------------------------
+REGISTRY = {}       # name -> (tier, factory of a fresh harness)
+SENSITIVITY = {}    # name -> [(label, factory of a harness whose premise is deliberately violated, expected rule)]
+
+
+def reg(name, tier, mk):
+    assert name not in REGISTRY, name
+    REGISTRY[name] = (tier, mk)
+
+
+def _layout(capacity):
+    from litex.soc.interconnect import stream
+    M = 2*capacity + 2
+    return stream.EndpointDescription([("data", (M - 1).bit_length())], [("p", 2)])
+
+
+def _async_fifo(depth, buffered):
+    def mk():
+        from litex.soc.interconnect import stream
+        cap = depth + (2 if buffered else 0)
+        return ClockDomainsRenamer({"write": "a", "read": "b"})(stream.AsyncFIFO(_layout(cap), depth, buffered))
+    return mk
+
+
+def _cdc(buffered):
+    def mk():
+        from litex.soc.interconnect import stream
+        cap = 4 + (2 if buffered else 0)
+        return stream.ClockDomainCrossing(_layout(cap), "a", "b", buffered=buffered)
+    return mk
+
+
+def _uart_fifo():
+    from litex.soc.cores import uart
+    return uart._get_uart_fifo(4, sink_cd="a", source_cd="b")
+
+
+def _menu():
+    Q, T = "quick", "thorough"
+    # stream.AsyncFIFO: depth x buffered x memory variant (occupancy bound: depth, +2 when buffered, DESIGN C05)
+    for depth in (4, 8):
+        for buffered in (False, True):
+            cap = depth + (2 if buffered else 0)
+            for mem in ("sim", "emitted", "emitted+collide"):
+                tier = Q if depth == 4 and (mem != "emitted+collide" or not buffered) else T
+                if depth == 8 and mem == "emitted+collide":
+                    continue
+                nm = f"AsyncFIFO(depth={depth},buffered={buffered})/mem={mem}"
+                reg(nm, tier, (lambda nm=nm, depth=depth, buffered=buffered, cap=cap, mem=mem:
+                               CdcStreamHarness(nm, _async_fifo(depth, buffered), cap, mem=mem, cap=4_000_000)))
+    nm = "AsyncFIFO(depth=4,buffered=False)/mem=sim/idle=0s+1s"
+    reg(nm, T, lambda nm=nm: CdcStreamHarness(nm, _async_fifo(4, False), 4, idle_patterns=(0, 1)))
+    # stream.ClockDomainCrossing a -> b (default depth)
+    for buffered in (False, True):
+        cap = 4 + (2 if buffered else 0)
+        nm = f"ClockDomainCrossing(a->b,buffered={buffered})/mem=sim"
+        reg(nm, Q if not buffered else T, (lambda nm=nm, buffered=buffered, cap=cap: CdcStreamHarness(nm, _cdc(buffered), cap)))
+        nm = f"ClockDomainCrossing(a->b,buffered={buffered},with_common_rst)/reset_pulses"
+        mkw = (lambda buffered=buffered, cap=cap: CommonRstWrapper(_layout(cap), None, buffered))
+        reg(nm, T, (lambda nm=nm, mkw=mkw, cap=cap: CdcStreamResetHarness(nm, mkw, cap, hold=(1, 2), cap=4_000_000)))
+        if not buffered:
+            SENSITIVITY[nm] = [("reset pulse released as soon as each clock has risen once (reset-less synchroniser flops not yet flushed)",
+                                (lambda nm=nm, mkw=mkw, cap=cap: CdcStreamResetHarness(nm + "/short", mkw, cap, hold=(1, 0))), "dup.invented")]
+    # UART FIFO wrapper
+    nm = "uart._get_uart_fifo(4,a->b)/mem=sim"
+    reg(nm, Q, lambda nm=nm: CdcStreamHarness(nm, _uart_fifo, 4))
+    nm = "uart._get_uart_fifo(4,a->b)/mem=emitted"
+    reg(nm, T, lambda nm=nm: CdcStreamHarness(nm, _uart_fifo, 4, mem="emitted"))
+    # BusSynchronizer
+    for width, R, tier in ((1, 1, Q), (1, 3, Q), (2, 1, Q), (2, 2, Q), (2, 3, Q), (3, 1, Q), (3, 2, T), (3, 3, T)):
+        Tmo = 8*(R + 1)
+        nm = f"BusSynchronizer(width={width},timeout={Tmo})/drift<={R}"
+        reg(nm, tier, (lambda nm=nm, width=width, R=R, Tmo=Tmo: BusSyncHarness(nm, width, R, Tmo, cap=4_000_000)))
+        if width == 2 and R == 1:
+            SENSITIVITY[nm] = [("time-out 8 shorter than the request/acknowledge round trip (premise violated)",
+                                (lambda nm=nm: BusSyncHarness(nm + "/short", 2, 1, 8)), "bus.torn")]
+    # stream.Monitor pulse path
+    nm = "stream.Monitor(clock_domain=b)/reset+latch pulses"
+    reg(nm, Q, lambda nm=nm: MonitorPulseHarness(nm))
+    # AXILiteClockDomainCrossing (capped)
+    for mem in ("sim", "emitted"):
+        nm = f"AXILiteClockDomainCrossing(a->b)/single-outstanding/mem={mem}"
+        reg(nm, T, lambda nm=nm, mem=mem: AxiLiteCdcHarness(nm, mem=mem, cap=AXI_CAP))
+
+
+AXI_CAP = 1_000_000
+_menu()
+
+
+def configs(tier):
+    return [(n,) for n, (t, f) in REGISTRY.items() if t == "quick" or tier == "thorough"]
+
+
+def _decode_step(c):
+    """a trace step as the explorer produced it or as it comes back from a replay file (JSON: lists, string keys)"""
+    if isinstance(c, (list, tuple)) and len(c) == 2 and isinstance(c[1], dict):
+        return (_tuple_deep(c[0]), {int(k): int(x) for k, x in c[1].items()})
+    return _tuple_deep(c)
+
+
+def _tuple_deep(x):
+    return tuple(_tuple_deep(y) for y in x) if isinstance(x, (list, tuple)) else x
+
+
+def _replay(mk, rule, trace, cycle):
+    H = mk()
+    tr = [_decode_step(c) for c in trace]
+    cyc = [_decode_step(c) for c in cycle] if cycle else None
+    q = [q for q in H.live_queries if q[0] == rule][0] if cyc else None
+    return replay_stock(mk, tr, cyc, q)
+
+
+def run_config(cfg, seed, tier):
+    name = cfg[0]
+    mk = REGISTRY[name][1]
+    H = mk()
+    X = Explorer(H, seed=seed)
+    structural = H.lint()
+    out = X.run().as_dict()
+    out["cover"]["crossing_discipline_findings"] = len(structural)
+    for v in out["violations"]:
+        # every reported violation is first re-played from reset through LiteX's own Evaluator (edge schedule + forced first flops)
+        rp = _replay(mk, v["rule"], v["trace"], v.get("cycle"))
+        v["replayed"] = dict(reproduced=rp["reproduced"], path=rp["path"], cycles=rp["cycles"])
+        if not rp["reproduced"]:
+            raise MachineryError(f"{name}: violation {v['rule']} does not reproduce on LiteX's evaluator: {rp}")
+    for rule, msg in structural:
+        if not any(v["rule"] == rule for v in out["violations"]):
+            out["violations"].append(dict(rule=rule, msg=msg, trace=None, detail=dict(kind="structural", all=[m for r, m in structural if r == rule])))
+    # sensitivity demonstrations: NOT verdicts (the premise of the property is violated on purpose); they only show that the
+    # fault model is sharp enough to see the failure the premise protects against
+    for label, mks, rule in SENSITIVITY.get(name, ()):
+        r = Explorer(mks(), max_viol_rules=1, seed=seed).run()
+        hit = [v for v in r.violations if v["rule"] == rule]
+        out["cover"].setdefault("sensitivity_not_a_verdict", []).append(dict(
+            premise_violated=label, expected_rule=rule, found=bool(hit), states=r.states,
+            shortest_trace_steps=len(hit[0]["trace"]) if hit else None, rules_seen=sorted(v["rule"] for v in r.violations)))
+    return out
+
+
+def replay(rec):
+    mk = REGISTRY[rec["cfg"]][1]
+    if rec["rule"].startswith("struct."):
+        H = mk()
+        Explorer(H)
+        found = [m for r, m in H.lint() if r == rec["rule"]]
+        return dict(cfg=rec["cfg"], rule=rec["rule"], reproduced=bool(found), findings=found, path="elaboration + crossing lint")
+    rp = _replay(mk, rec["rule"], rec["trace"], rec.get("cycle"))
+    return dict(cfg=rec["cfg"], rule=rec["rule"], reproduced=rp["reproduced"], err=rp["err"], path=rp["path"], cycles=rp["cycles"])
+
+
+def extra_coverage(results):
+    tot = dict(simultaneous_edge_steps=0, steps_with_crossing_change_in_sampling_instant=0, fault_successors=0,
+               read_during_write_collisions=0)
+    for r in results:
+        c = r.get("cover") or {}
+        for k in tot:
+            tot[k] += int(c.get(k, 0) or 0)
+    tot["non_exhaustive_configs"] = [r["cfg"] for r in results if not r.get("exhaustive", True)]
+    return dict(cdc=tot)
